@@ -62,13 +62,13 @@ HARNESSES += both("linear", "c04_multitask_elasticnet", "MultiTaskElasticNetPara
                   ["linfa_elasticnet::ElasticNetParamsBase<F,true>::{new,penalty,l1_ratio,tolerance,max_iterations,with_intercept,check_ref,check}"])
 HARNESSES += both("linear", "c04_logistic", "LogisticRegressionParams<Ix1>", "alpha finite and >0 accepted / non-finite or <0 rejected (0 undecided: 'positive'), gradient_tolerance likewise, initial_params (None | 2 symbolic entries) all finite",
                   ["linfa_logistic::LogisticRegressionParams<F,Ix1>::{new,alpha,gradient_tolerance,max_iterations,with_intercept,initial_params,check_ref,check}"], assumes=(ANYBITS,))
-HARNESSES.append(H("linear::c04_multilogistic_f64", "LogisticRegressionParams<Ix2><f64>", "same as binary logistic; initial_params 1x2",
+HARNESSES.append(H("linear::c04_multilogistic_f64", "LogisticRegressionParams<Ix2><f64>", "same as binary logistic; initial_params 1x2", tiers=("thorough",), functions=
                    ["linfa_logistic::LogisticRegressionParams<F,Ix2>::{new,alpha,gradient_tolerance,max_iterations,with_intercept,initial_params,check_ref,check}"], assumes=(ANYBITS,)))
 HARNESSES += both("linear", "c04_tweedie", "TweedieRegressorParams", "alpha>=0, power not in the open interval (0,1); link in {unset,Identity,Log,Logit}; tol/max_iter undocumented (free)",
                   ["linfa_linear::TweedieRegressorParams::{new,alpha,power,tol,max_iter,fit_intercept,link,check_ref,check}", "linfa_linear::TweedieRegressor::params"])
 HARNESSES += both("svm", "c04_platt", "PlattParams", "maxiter>=1, minstep: >0 accepted / <0 rejected (0 undecided: 'positive'), sigma likewise",
                   ["linfa::composing::platt_scaling::PlattParams::{default,maxiter,minstep,sigma,check_ref,check}", "linfa::Platt::params"])
-HARNESSES += both("svm", "c04_svm", "SvmParams", "embedded Platt ranges; eps >0 accepted / <0 rejected; C (pos_neg_weights, c_svr) >0 accepted / <0 rejected; nu (nu_weight, nu_svr) 0<nu<=1 accepted / <0 or >1 rejected; c_svr loss eps and nu_svr C undocumented (free); 5 ways of setting C/nu",
+HARNESSES += both("svm", "c04_svm", "SvmParams", "embedded Platt ranges; eps >0 accepted / <0 rejected; C (pos_neg_weights, c_svr) >0 accepted / <0 rejected; nu (nu_weight, nu_svr) 0<nu<=1 accepted / <0 or >1 rejected; nu_svr C like every C; c_svr loss eps undocumented (free); 5 ways of setting C/nu",
                   ["linfa_svm::SvmParams::{new,eps,shrinking,with_platt_params,pos_neg_weights,nu_weight,c_svr,nu_svr,check_ref,check}", "linfa::composing::platt_scaling::PlattParams::check_ref"])
 HARNESSES += both("misc::trees", "c04_trees", "DecisionTreeParams", "min_impurity_decrease: >=F::EPSILON accepted / <=0 rejected ((0,eps) undecided); max_depth, min_weight_split, min_weight_leaf, split_quality undocumented (free)",
                   ["linfa_trees::DecisionTreeParams::{new,split_quality,max_depth,min_weight_split,min_weight_leaf,min_impurity_decrease,check_ref,check}"], stubs=("alloc::fmt::format -> empty String (message text is not part of the property)",))
@@ -79,7 +79,7 @@ HARNESSES += both("misc::ftrl", "c04_ftrl", "FtrlParams", "l1_ratio, l2_ratio in
 HARNESSES += both("misc::pls", "c04_pls_regression", "PlsRegressionParams", "tolerance finite and >=0, max_iterations>=1", ["linfa_pls::PlsRegressionParams::{tolerance,max_iterations,scale,algorithm,check_ref,check}", "linfa_pls::PlsRegression::params"], assumes=("tolerance: every bit pattern except -0.0",))
 HARNESSES.append(H("misc::pls::c04_pls_canonical_f64", "PlsCanonicalParams<f64>", "tolerance finite and >=0, max_iterations>=1", ["linfa_pls::PlsCanonicalParams::{tolerance,max_iterations,scale,algorithm,check_ref,check}"], assumes=("tolerance: every bit pattern except -0.0",)))
 HARNESSES.append(H("misc::pls::c04_pls_cca_f64", "PlsCcaParams<f64>", "tolerance finite and >=0, max_iterations>=1", ["linfa_pls::PlsCcaParams::{tolerance,max_iterations,scale,algorithm,check_ref,check}"], assumes=("tolerance: every bit pattern except -0.0",)))
-HARNESSES += both("misc::tsne", "c04_tsne", "TSneParams", "perplexity >0 accepted / <0 rejected (0 undecided), approx_threshold>=0 ('a value of 0 disables approximation'), preliminary_iter<=max_iter accepted (larger: undecided)",
+HARNESSES += both("misc::tsne", "c04_tsne", "TSneParams", "perplexity >0 accepted / <0 rejected (0 undecided), approx_threshold>=0 ('a value of 0 disables approximation'), preliminary_iter<=max_iter (larger: rejected)",
                   ["linfa_tsne::TSneParams::{embedding_size,approx_threshold,perplexity,max_iter,preliminary_iter,check_ref,check}"], 9)
 HARNESSES += both("misc::ica", "c04_fastica", "FastIcaParams", "tol >0 accepted / <0 rejected (0 undecided: 'positive'); ncomponents, max_iter, random_state, gfunc free",
                   ["linfa_ica::hyperparams::FastIcaParams::{new,tol,max_iter,ncomponents,random_state,gfunc,check_ref,check}"])
@@ -88,7 +88,7 @@ HARNESSES.append(H("misc::reduction::c04_gaussian_random_projection", "RandomPro
 HARNESSES.append(H("misc::reduction::c04_sparse_random_projection", "RandomProjectionParams<Sparse>", "target_dim>=1 | eps in the open interval (0,1) | default eps=0.1", ["linfa_reduction::random_projection::RandomProjectionParams<Sparse,_>::{target_dim,eps,check_ref,check}"], 9))
 HARNESSES += both("misc::hierarchical", "c04_hierarchical", "HierarchicalCluster", "num_clusters>=1 | max_distance >0 accepted / <0 rejected (0 undecided) | default",
                   ["linfa_hierarchical::HierarchicalCluster::{default,with_method,num_clusters,max_distance,check_ref,check}"])
-HARNESSES.append(H("misc::countvec::c04_countvectorizer_numeric", "CountVectorizerParams (numeric tests only)", "n_gram min>=1, max>=1, min<=max; document frequencies: 0<=min<=max<=1 accepted, <0 or flipped rejected (>1 undecided)",
+HARNESSES.append(H("misc::countvec::c04_countvectorizer_numeric", "CountVectorizerParams (numeric tests only)", "n_gram min>=1, max>=1, min<=max; document frequencies: 0<=min<=max<=1",
                    ["linfa_preprocessing::CountVectorizerParams::{default,n_gram_range,document_frequency,max_features,check_ref,check}"],
                    stubs=("regex::Regex::new -> Err(CompiledTooBig) (regex compilation is out of CBMC's reach; 'numeric tests passed' is observed as RegexError)",)))
 
@@ -98,15 +98,15 @@ HARNESSES.append(H("blanket::c04_blanket_fit_with", "mock ParamGuard (FitWith)",
 HARNESSES.append(H("blanket::c04_blanket_transform", "mock ParamGuard (Transformer via TransformGuard)", "mock range", BLANKET[2:], assumes=()))
 
 # --- documentation-vs-guard suspects, each isolated; run only when known_findings.json has an entry ------
-def D(name, builder, claim, fn, unwind=5, stubs=()):
-    return H(name, builder, claim, fn, unwind, role="doc", stubs=stubs, assumes=(FIN,), finding=name.split("::")[-1])
+def D(name, builder, claim, fn, unwind=5, stubs=(), role="doc"):
+    return H(name, builder, claim, fn, unwind, role=role, stubs=stubs, assumes=(FIN,), finding=name.split("::")[-1])
 
 HARNESSES.append(D("linear::c04_doc_elasticnet_max_iterations_zero", "ElasticNetParams<f64>", "parameter table: max_iterations in [1, inf); guard never looks at it", ["linfa_elasticnet::ElasticNetParamsBase::check_ref"]))
-HARNESSES.append(D("linear::c04_doc_elasticnet_tolerance_zero", "ElasticNetParams<f64>", "parameter table: tolerance in (0, inf); guard rejects only negative values", ["linfa_elasticnet::ElasticNetParamsBase::check_ref"]))
+HARNESSES.append(D("linear::c04_doc_elasticnet_tolerance_zero", "ElasticNetParams<f64>", "UNCLAIMED (integrator decision: the doc contradicts itself) parameter table: tolerance in (0, inf); Errors text: 'if the tolerance is negative'; guard rejects only negative values", ["linfa_elasticnet::ElasticNetParamsBase::check_ref"], role="unclaimed"))
 HARNESSES.append(D("svm::c04_doc_platt_maxiter_zero_variant", "PlattParams<f64>", "maxiter = 0 is reported as MaxIterReached ('did not converge') although MaxIterZero ('maxiter should be larger than zero') exists", ["linfa::composing::platt_scaling::PlattParams::check_ref"]))
 HARNESSES.append(D("svm::c04_doc_svm_nu_zero", "SvmParams<f64,bool>", "nu_weight doc: 'should lie in range [0, 1]'; guard rejects nu = 0", ["linfa_svm::SvmParams::check_ref"]))
 HARNESSES.append(D("svm::c04_doc_svm_nu_svr_negative_c", "SvmParams<f64,f64>", "'Negative C value' is an error for c_svr/pos_neg_weights but nu_svr's C is never checked", ["linfa_svm::SvmParams::check_ref"]))
-HARNESSES.append(D("misc::trees::c04_doc_trees_tiny_positive", "DecisionTreeParams<f64>", "message: 'should be greater than zero'; guard rejects 0 < x < F::EPSILON", ["linfa_trees::DecisionTreeParams::check_ref"], stubs=("alloc::fmt::format",)))
+HARNESSES.append(D("misc::trees::c04_doc_trees_tiny_positive", "DecisionTreeParams<f64>", "UNCLAIMED (integrator decision) message: 'should be greater than zero'; guard rejects 0 < x < F::EPSILON", ["linfa_trees::DecisionTreeParams::check_ref"], stubs=("alloc::fmt::format",), role="unclaimed"))
 HARNESSES.append(D("misc::tsne::c04_doc_tsne_preliminary_iter", "TSneParams<f64>", "TSneError::PreliminaryIterationsTooLarge exists but is never returned", ["linfa_tsne::TSneParams::check_ref"], 9))
 HARNESSES.append(D("misc::countvec::c04_doc_countvectorizer_frequency_above_one", "CountVectorizerParams", "document_frequency doc: 'must lie in 0..=1'; guard only tests < 0", ["linfa_preprocessing::CountVectorizerParams::check_ref"], stubs=("regex::Regex::new",)))
 
@@ -119,15 +119,17 @@ HARNESSES.append(FT("fit::kmeans::c04_fit_kmeans_nclusters", "KMeansParams<f64>:
 HARNESSES.append(FT("fit::kmeans::c04_fit_kmeans_tolerance", "KMeansParams<f64>::fit", "tolerance=0 => Err(InvalidParams(Tolerance))", ["linfa_clustering::KMeansParams::check_ref"], 9, RAYON))
 HARNESSES.append(FT("fit::kmeans::c04_fit_with_kmeans_nruns", "KMeansParams<f64>::fit_with", "n_runs=0 => Err(IncrKMeansError::InvalidParams(NRuns))", ["linfa_clustering::KMeansParams::check_ref", "<IncrKMeansError as From<KMeansParamsError>>::from"], 9, RAYON))
 HARNESSES.append(FT("fit::dbscan::c04_transform_dbscan_minpoints", "DbscanParams<f64>::transform", "min_points=1 => Err(DbscanParamsError::MinPoints)", ["linfa_clustering::DbscanParams::check_ref"], 5, RAYON))
-HARNESSES.append(FT("fit::enet::c04_fit_elasticnet_penalty", "ElasticNetParams<f64>::fit", "penalty=-1 => Err(InvalidPenalty(-1))", ["linfa_elasticnet::ElasticNetParamsBase::check_ref"]))
-HARNESSES.append(FT("fit::enet::c04_fit_elasticnet_l1_ratio", "ElasticNetParams<f64>::fit", "l1_ratio=1.5 => Err(InvalidL1Ratio(1.5))", ["linfa_elasticnet::ElasticNetParamsBase::check_ref"]))
-HARNESSES.append(FT("fit::trees::c04_fit_trees_min_impurity", "DecisionTreeParams<f64,usize>::fit", "min_impurity_decrease=0 => Err(linfa::Error::Parameters)", ["linfa_trees::DecisionTreeParams::check_ref"], 5, ("alloc::fmt::format",)))
-HARNESSES.append(FT("fit::bayes::c04_fit_gaussian_nb_smoothing", "GaussianNbParams<f64,usize>::fit", "var_smoothing=-1 => Err(InvalidSmoothing(-1))", ["linfa_bayes::GaussianNbParams::check_ref"]))
 
 
 # =====================================================================================================
 # engine
 # =====================================================================================================
+# relative cost (seconds on an idle machine), only used to start the long harnesses first
+COST = {"c04_fit_kmeans_nclusters": 130, "c04_fit_kmeans_tolerance": 130, "c04_fit_with_kmeans_nruns": 130, "c04_transform_dbscan_minpoints": 90,
+        "c04_countvectorizer_numeric": 40, "c04_multilogistic": 35, "c04_svm": 30, "c04_logistic": 25, "c04_gmm": 17, "c04_trees": 13, "c04_ftrl": 13,
+        "c04_gaussian_random_projection": 12, "c04_sparse_random_projection": 12, "c04_blanket_fit": 11, "c04_blanket_fit_with": 12, "c04_kmeans": 10, "c04_tsne": 10}
+
+
 def kenv():
     e = dict(os.environ)
     e["CARGO_NET_OFFLINE"] = "true"
@@ -169,15 +171,12 @@ def build(jobs):
     """compile every dependency once (worker 0), then clone the target dir for the other workers"""
     ensure_lock()
     os.makedirs(TARGET, exist_ok=True)
-    import fcntl
-    with open(os.path.join(TARGET, ".hk.lock"), "w") as lk:
-        fcntl.flock(lk, fcntl.LOCK_EX)
-        cmd = ["cargo", "kani", "--target-dir", worker_dir(0), "--only-codegen", "-Z", "unstable-options", "-Z", "stubbing"]
-        rc, out, wall, _ = sh(cmd, HK, 2400, mem=False)
-        if rc != 0:
-            return False, out[-6000:], wall
-        for i in range(1, jobs):
-            subprocess.run(["rsync", "-a", "--delete", worker_dir(0) + "/", worker_dir(i) + "/"], check=False)
+    cmd = ["cargo", "kani", "--target-dir", worker_dir(0), "--only-codegen", "-Z", "unstable-options", "-Z", "stubbing"]
+    rc, out, wall, _ = sh(cmd, HK, 2400, mem=False)
+    if rc != 0:
+        return False, out[-6000:], wall
+    for i in range(1, jobs):
+        subprocess.run(["rsync", "-a", "--delete", worker_dir(0) + "/", worker_dir(i) + "/"], check=False)
     return True, "", wall
 
 
@@ -352,6 +351,14 @@ def load_known(prop):
 
 def run(prop="C04", tier="quick", seed=0, only=None, jobs=None, suspects=False, quiet=True):
     """seed is unused: CBMC's verdict covers every bit pattern of the symbolic inputs (nothing is sampled)"""
+    import fcntl
+    os.makedirs(TARGET, exist_ok=True)
+    with open(os.path.join(TARGET, ".hk.lock"), "w") as lk:
+        fcntl.flock(lk, fcntl.LOCK_EX)  # the worker target dirs are shared: one driver at a time
+        return _run(prop, tier, seed, only, jobs, suspects, quiet)
+
+
+def _run(prop, tier, seed, only, jobs, suspects, quiet):
     jobs = jobs or JOBS
     t0 = time.time()
     known = load_known(prop)
@@ -359,12 +366,16 @@ def run(prop="C04", tier="quick", seed=0, only=None, jobs=None, suspects=False, 
     for h in HARNESSES:
         if tier not in h["tiers"] or (only and only not in h["name"]):
             continue
+        if h["role"] == "unclaimed" and not suspects:
+            skipped.append(h["name"])
+            continue
         if h["role"] == "doc":
             k = known.get(h["finding"])
             if k is None and not suspects:
                 skipped.append(h["name"])
                 continue
         sel.append(h)
+    sel.sort(key=lambda h: -COST.get(h["name"].split("::")[-1].rsplit("_f", 1)[0], 1))  # longest first
     res = dict(violations=[], inconclusive=[], coverage={}, states=0, transitions=0, obligations=0, discharged=0, functions=[], known_findings=[])
     ok, err, bwall = build(min(jobs, max(1, len(sel))))
     if not ok:
@@ -422,7 +433,7 @@ def run(prop="C04", tier="quick", seed=0, only=None, jobs=None, suspects=False, 
             if rep is not True:
                 res["inconclusive"].append("%s: CBMC counterexample for '%s' did not reproduce natively (%s) -- see %s" % (h["name"], what, rep, path))
             elif k and k.get("status") == "known":
-                line = "KNOWN-FINDING: property=%s %s [%s: %s; replay=%s]" % (prop, k.get("what", ""), short, what, path)
+                line = "KNOWN-FINDING: property=%s %s [%s %s: %s; replay=%s]" % (prop, k.get("what") or h["ranges"], k.get("id", ""), short, what, path)
                 res["known_findings"].append(line)
                 print(line)
             else:
